@@ -1,11 +1,13 @@
 """C15 — Requests are routed to the named virtual host and hosts stay isolated."""
 import itertools
+import re
 
 from kv import Case, xn, xb, xl, xlist, xopt, xbool, xparse, xtext
+import pipe
 
 ID = "C15"
 MODULE = "C15"
-IMPORTS = "Bytes Hosts HostsProofs"
+IMPORTS = "Bytes CacheX HostsPipe HostsPipeProofs Hosts HostsProofs"
 PROFILES = ("dev",)
 LOOKUP = "hosts.lookup"        # model component compared with the implementation (V1 = repaired code)
 MS = "St Req Rep Adm serve admin route targets refuse"
@@ -64,28 +66,132 @@ THEOREMS = [
      "forall (St P Rep : Type) (serve : nat -> St -> P -> St * Rep) (refuse : Rep) (ops : list op) (c : collection) "
      "(st : nat -> St) (r : srequest P), build ops = Ok c -> server_step St P Rep serve refuse V1 c st r "
      "= Ok (rstep St (srequest P) Rep (spec_serve St P Rep serve) (spec_route P ops) refuse st r)"),
-    ("connection_histories_eq_spec",
-     "forall (ops : list op) (c : collection), build ops = Ok c -> forall (reqs : list (list bytes * bytes)) (st : nat -> hstate), "
-     "Forall (fun r => fst r <> [] \\/ default_index O ops <> None) reqs -> "
-     "conn_history V1 c st reqs = map Ok (conn_spec ops st reqs)"),
+    ("wire_histories_eq_spec",
+     "forall auth_ok : bytes -> bool, (forall h, auth_ok h = true -> is_text h) -> "
+     "forall (ops : list op) (c : collection), build ops = Ok c -> forall (reqs : list wreq) (st : nat -> hstate), "
+     "Forall (fun r => wf_wreq r /\\ tls_refused ops r = false) reqs -> "
+     "wire_history auth_ok fixed c st reqs = map Ok (wire_spec ops st reqs)"),
+    ("wire_histories_eq_spec_http",
+     "forall (ops : list op) (c : collection), build ops = Ok c -> forall (reqs : list wreq) (st : nat -> hstate), "
+     "Forall (fun r => wf_wreq r /\\ tls_refused ops r = false) reqs -> "
+     "wire_history auth_ok_http fixed c st reqs = map Ok (wire_spec ops st reqs)"),
+    ("sni_decides",
+     "forall (ops : list op) (r : wreq) (s : bytes), w_tls r = true -> w_sni r = Some s -> "
+     "wire_route ops r = reference_general ops (Some s) None"),
+    ("tls_never_409",
+     "forall auth_ok : bytes -> bool, (forall h, auth_ok h = true -> is_text h) -> "
+     "forall (ops : list op) (c : collection) (st st' : nat -> hstate) (r : wreq), build ops = Ok c -> wf_wreq r -> "
+     "w_tls r = true -> wire_request auth_ok fixed c st r <> Ok (st', W409)"),
+    ("tls_refusal_changes_nothing",
+     "forall (auth_ok : bytes -> bool) (ops : list op) (c : collection) (st : nat -> hstate) (r : wreq) (fx : fixes), "
+     "build ops = Ok c -> tls_refused ops r = true -> wire_request auth_ok fx c st r = Ok (st, WNoTls)"),
+    ("authority_parser_irrelevant",
+     "forall (auth1 auth2 : bytes -> bool) (ops : list op) (c : collection) (st : nat -> hstate) (r : wreq), "
+     "(forall h, auth1 h = true -> is_text h) -> (forall h, auth2 h = true -> is_text h) -> build ops = Ok c -> wf_wreq r -> "
+     "wire_request auth1 fixed c st r = wire_request auth2 fixed c st r"),
+    ("wire_isolation",
+     "forall (ops : list op) (reqs reqs' : list wreq) (st st' : nat -> hstate) (i : nat), st i = st' i -> "
+     "filter (wire_routed_to ops i) reqs = filter (wire_routed_to ops i) reqs' -> "
+     "wire_replies_for ops i reqs (wire_spec ops st reqs) = wire_replies_for ops i reqs' (wire_spec ops st' reqs')"),
+    ("multi_host_pipeline_eq_projection",
+     "forall (ops : list Hosts.op) (c : collection) (cfgs : list configx) (es : list pevent) (st : nat -> pstate) (i : nat), "
+     "build ops = Ok c -> Forall wf_pevent es -> "
+     "fst (prun cfgs (proute c) (ptargets c) st es) i = fst (srun pstate preq prep padm (pserve cfgs) padmin i (st i) "
+     "(filter (concerns preq padm (spec_proute ops) (spec_ptargets ops) i) es)) /\\ "
+     "replies_for preq prep padm (spec_proute ops) (spec_ptargets ops) i es (snd (prun cfgs (proute c) (ptargets c) st es)) "
+     "= snd (srun pstate preq prep padm (pserve cfgs) padmin i (st i) (filter (concerns preq padm (spec_proute ops) (spec_ptargets ops) i) es))"),
+    ("multi_host_pipeline_eq_spec",
+     "forall (ops : list Hosts.op) (c : collection) (cfgs : list configx) (es : list pevent) (st : nat -> pstate), "
+     "build ops = Ok c -> Forall wf_pevent es -> "
+     "snd (prun cfgs (proute c) (ptargets c) st es) = snd (prun cfgs (spec_proute ops) (spec_ptargets ops) st es)"),
+    ("host_alone_is_cache_pipeline",
+     "forall (cfgs : list configx) (i : nat) (es : list pevent) (s : statex (list N)) (now : N), "
+     "fst (srun pstate preq prep padm (pserve cfgs) padmin i (s, now) es) = runX_state (list N) "
+     "(compute_x (cf_default_ext (cx_base (cfg_of cfgs i))) (cf_handlers (cx_base (cfg_of cfgs i))) (cx_xhandlers (cfg_of cfgs i))) "
+     "(cf_cache (cx_base (cfg_of cfgs i))) (cf_ims (cx_base (cfg_of cfgs i))) "
+     "(cx_fix_vary (cfg_of cfgs i)) (cx_fix_ovkey (cfg_of cfgs i)) (cx_fix_clear (cfg_of cfgs i)) (cx_fix_svary (cfg_of cfgs i)) "
+     "(cx_fix_qmkey (cfg_of cfgs i)) (cx_fix_ims (cfg_of cfgs i)) (sfilter_fix (cx_sfilter (cfg_of cfgs i))) parse_ims_fix sanitize_ok_fix "
+     "(if cf_default_ext (cx_base (cfg_of cfgs i)) then uri_redirect else (fun r => r)) "
+     "(override_x (cf_default_ext (cx_base (cfg_of cfgs i))) (cx_ovprime (cfg_of cfgs i))) (fun _ _ => None) "
+     "(vary_tuple_x (cx_fix_ovkey (cfg_of cfgs i)) (cf_vary (cx_base (cfg_of cfgs i)))) "
+     "(vary_header_x (cx_fix_ovkey (cfg_of cfgs i)) (cf_vary (cx_base (cfg_of cfgs i)))) clear_alias_fix s now (map to_opx es)"),
+    ("clear_all_targets_eq",
+     "forall (ops : list Hosts.op) (c : collection) (flt : option bytes) (i : nat), build ops = Ok c -> "
+     "(In i (map hid (clear_all_targets c flt)) <-> cleared_by_all ops flt i = true)"),
+    ("clear_page_target_eq",
+     "forall (ops : list Hosts.op) (c : collection) (name : bytes), build ops = Ok c -> "
+     "omap hid (clear_target V1 c name) = Ok (clear_reference ops name)"),
+    ("wire_concurrent_clients",
+     "forall (ops : list op) (m : list (bool * wreq)) (st st' : nat -> hstate), "
+     "(forall i, wire_touches ops (mine m) i = true -> wire_touches ops (others m) i = false) -> "
+     "(forall i, wire_touches ops (mine m) i = true -> st i = st' i) -> "
+     "tagged_replies m (wire_spec ops st (map snd m)) = wire_spec ops st' (mine m)"),
     ("absent_host_refuted",
-     "exists ops c p, build ops = Ok c /\\ conn_history V1 c (fun _ => hstate0) [([], p)] = [Ok WClosed] /\\ "
-     "conn_spec ops (fun _ => hstate0) [([], p)] = [W409]"),
+     "forall auth_ok : bytes -> bool, exists ops c r, build ops = Ok c /\\ "
+     "wire_history auth_ok snapshot c (fun _ => hstate0) [r] = [Ok WClosed] /\\ "
+     "wire_spec ops (fun _ => hstate0) [r] = [W409] /\\ wire_history auth_ok fixed c (fun _ => hstate0) [r] = [Ok W409]"),
+    ("bad_authority_refuted",
+     "forall auth_ok : bytes -> bool, auth_ok (B \"a b\") = false -> exists ops c r, build ops = Ok c /\\ "
+     "wire_history auth_ok (mkFixes true false false) c (fun _ => hstate0) [r] = [Ok WClosed] /\\ "
+     "wire_spec ops (fun _ => hstate0) [r] = [W200 1 1] /\\ wire_history auth_ok fixed c (fun _ => hstate0) [r] = [Ok (W200 1 1)]"),
+    ("h2_authority_refuted",
+     "forall auth_ok : bytes -> bool, exists ops c r, build ops = Ok c /\\ "
+     "wire_history auth_ok (mkFixes true true false) c (fun _ => hstate0) [r] = [Ok (W200 1 1)] /\\ "
+     "wire_spec ops (fun _ => hstate0) [r] = [W200 0 1] /\\ wire_history auth_ok fixed c (fun _ => hstate0) [r] = [Ok (W200 0 1)]"),
+    ("tls_handshake_refuted",
+     "forall auth_ok : bytes -> bool, exists ops c ra rb, build ops = Ok c /\\ tls_refused ops ra = true /\\ tls_refused ops rb = true /\\ "
+     "wire_history auth_ok fixed c (fun _ => hstate0) [ra] = [Ok WNoTls] /\\ wire_spec ops (fun _ => hstate0) [ra] = [W409] /\\ "
+     "wire_history auth_ok fixed c (fun _ => hstate0) [rb] = [Ok WNoTls] /\\ wire_spec ops (fun _ => hstate0) [rb] = [W200 0 1]"),
 ]
-RULE = ("(a) direct calls of HostCollection::builder().insert/.default(..).build() and Collection::get_from_request / get_host / "
+RULE = ("(a) hosts.lookup: direct calls of HostCollection::builder().insert/.default(..).build() and Collection::get_from_request / get_host / "
         "get_or_default / get_default / clear_file / clear_file_caches on the real code against the Coq model (correspondence) and the "
-        "reference resolver (oracle): collections of 1-4 hosts x default none/any position (and a second default: builder panic) x "
-        "alternative names incl. overlapping ones x a menu of ~45 requested names per collection (every configured name exact, with "
-        "trailing dot(s), upper case, with port, unknown, localhost / 127.0.0.1 / [::1] / ::1 with and without port and near misses, "
-        "empty, absent, non-ASCII, TAB) as SNI, as Host header, both, and two Host headers. thorough: exhaustive over the reduced "
-        "universe (names a/b/c.test, <= 2 alternative names, 1-3 hosts, every default position) + sampled 4-host collections; quick: "
-        "sampled. (b) histories of 6-14 HTTP/1.1 requests through kvarn::handle_connection over loopback TCP against 2-4 hosts with "
-        "per-host counting handlers (response cache on), per-host files of the same name (file cache on), identical paths on "
-        "alternating hosts. distinct_nontrivial counts distinct (component, input) pairs")
-ASSUMPTIONS = []
-TRUSTED = ["modelled: src/host.rs CollectionBuilder::{insert, default}, Collection::{get_host, get_default, get_or_default, "
-           "get_option_or_default, get_from_request, clear_page/clear_file target, clear_*_caches targets}; src/lib.rs handle_connection "
-           "host choice (409, re-lookup by name)"]
+        "reference resolver (oracle; every query kind now has a specified answer): collections of 1-4 hosts x default none/any position (and a "
+        "second default: builder panic) x alternative names incl. overlapping ones x a menu of ~45 requested names per collection (every configured "
+        "name exact, with trailing dot(s), upper case, with port, unknown, localhost / 127.0.0.1 / [::1] / ::1 with and without port and near misses, "
+        "empty, absent, non-ASCII, TAB) as SNI, as Host header, both, two Host headers, and as the authority of the request's URI (with and without SNI / text or non-text Host "
+        "header beside it). thorough: exhaustive over the reduced universe (names "
+        "a/b/c.test, <= 2 alternative names, 1-3 hosts, every default position) + sampled 4-host collections; quick: sampled. "
+        "(b) hosts.wire: histories of 6-14 requests through kvarn::handle_connection over loopback connections of three kinds — plain TCP with "
+        "HTTP/1.1 or HTTP/1.0, TLS with HTTP/1.1 (ALPN http/1.1), TLS with HTTP/2 (ALPN h2); rustls / h2 clients in the harness — against 2-4 hosts "
+        "(some built by Host::clone_without_extensions of their neighbour, some sharing Host::path with host 0) with per-host counting handlers "
+        "(response cache on; marker = index captured by the closure + id read from the &Host argument + invocation number, in body and header), "
+        "per-host files of the same name (file cache on), identical paths on alternating hosts: SNI in {configured, unknown, localhost, none} "
+        "independently of Host header / :authority in {configured exact / trailing dot / upper case / with port, loopback forms, unknown, absent, "
+        "two lines, 13 values that are not URI authorities}; methods GET / HEAD / POST / PUT; accept-encoding: gzip; if-modified-since in the "
+        "future (304 on a stored entry) and in the past. (b2) hosts.wire2: 2-4 clients at once, each with a host of its own (identical paths), every "
+        "client must see what it would see alone. (c) hosts.pipe: 2-4 hosts each with the fixture pipeline of C03/C04 (counting / echoing / "
+        "method handlers with ServerCachePreference None / QueryMatters / Full, vary rule, response cache on/off, default extensions on/off) in one "
+        "collection; histories of 10-18 events: requests routed as handle_connection routes them (get_from_request(request, sni) + "
+        "get_host(name).unwrap()) and served by kvarn::handle_cache (incl. accept-encoding, if-modified-since, HEAD / POST), "
+        "Collection::clear_page(name, uri) with name in {configured, alternative, default, \"\", unknown, trailing dot}, "
+        "Collection::clear_response_caches(filter) with filter in {none, host name, alternative name, unknown}; compared with the product of the "
+        "routing model and Model/CacheX.v (correspondence) and with the specification server (oracle); after every request the handler logs of all "
+        "other hosts must be empty. distinct_nontrivial counts distinct (component, input) pairs")
+ASSUMPTIONS = [
+    "wire histories: a request is what the harness's clients can send — SNI a lower-case DNS name without trailing dot (rustls strips the dot and "
+    "the rustls server lower-cases; other spellings reach get_from_request only through the direct calls of hosts.lookup), origin-form request "
+    "target, :authority of an HTTP/2 request accepted by the h2 / http crates (hypothesis wf_wreq of the theorems)",
+    "every host of a wire history presents a certificate (the same self-signed one): a host without certificate refuses the handshake for its "
+    "own name, which is not modelled",
+    "the per-host pipeline under the wire histories is the marker handler with its response cache (path-keyed entries that never expire within a "
+    "run, GET/HEAD looked up and stored, 304 for if-modified-since in the future on a stored entry); the full cache model sits under hosts.pipe",
+    "hosts.pipe: no waits, lifetimes >= 120 s, if-modified-since 60 s away from the run's start: nothing in a run depends on the clock",
+    "concurrency: wire_concurrent_clients quantifies over interleavings of whole requests (HTTP/1 connections are served one request at a time; "
+    "requests to different hosts share no state in the model); finer-grained races inside one host are C05's subject",
+    "the replies compared in hosts.wire / hosts.pipe contain the invocation number of the handler that produced the body: a change of the "
+    "response-cache policy (C03/C04) shows up here, too, as a correspondence difference",
+    "the limiter is disabled on every host (Host::limiter of the first host is also the collection's pre-host limiter: shared state that is not "
+    "part of this property)",
+]
+TRUSTED = ["modelled (Model/Hosts.v): src/host.rs CollectionBuilder::{insert, default}, Collection::{get_host, get_default, get_or_default, "
+           "get_option_or_default, get_from_request (with the URI's authority), clear_page / clear_file target, clear_response_caches / "
+           "clear_file_caches targets}, ResolvesServerCert::resolve (handshake accepted iff the SNI lookup finds a host); src/lib.rs "
+           "handle_connection: SNI of the connection, host choice, 409, re-lookup by name; async/src/lib.rs read::request (= src/application.rs "
+           "copy): which Host value becomes the URI's authority, when a request is refused; (Model/HostsPipe.v) the product of these with "
+           "Model/CacheX.v per host",
+           "http 1.5.0 uri::Authority::try_from as transcribed for C07 (Model/Http1Read.v authority_ok; proved here to accept only text; the "
+           "replies of the repaired code are proved independent of what exactly it accepts: authority_parser_irrelevant)",
+           "rustls / tokio-rustls / h2 clients of the harness and a certificate verifier that accepts the harness's self-signed certificate"]
 EXHAUSTIVE = False
 IMPL_SHARDS = 16
 
@@ -95,6 +201,9 @@ LOOP = [b"localhost", b"localhost:8080", b"localhost:", b"localhost.", b"LOCALHO
         b"127.0.0.1", b"127.0.0.1:80", b"127.0.0.2", b"127.0.0.1.", b"[::1]", b"[::1]:443", b"::1", b"::1:80", b"[::1]x", b"[::1",
         b"[::1]:", b"[::2]", b"[", b"[::1].", b"0.0.0.0"]
 ODD = [b"", b".", b"..", b":", b":80", b"default", b"unknown.test", b"\xe4.test", b"a\ttest", b"a.test\xff"]
+
+
+AUTH_SAFE = re.compile(rb"^([A-Za-z0-9.-]+|\[::1\])(:[0-9]*)?$")
 
 
 def x_ops(ops):
@@ -147,6 +256,11 @@ def queries(ops, rng, full):
             qs.append(q_req(6, None, [n]))
         if full or rng.random() < 0.1:
             qs.append(q_req(0, None, [n, rng.choice(configured)]))    # first Host header wins
+        if AUTH_SAFE.match(n) and (full or rng.random() < 0.25):
+            # the URI's authority stands in for a missing (or non-text) Host header; the SNI and a text header win over it
+            f = rng.random()
+            sni, hh = (None, []) if f < 0.6 else (None, [b"\xe4.test"]) if f < 0.7 else (None, [rng.choice(configured)]) if f < 0.85 else (rng.choice(configured), [])
+            qs.append(xl(xn(7), xopt(None if sni is None else xb(sni)), xlist([xb(h) for h in hh]), xb(n)))
     for n in configured + [b"default", b"", b"unknown.test", b"a.test."]:
         if utf8(n):
             qs.append(xl(xn(1), xb(n)))
@@ -195,50 +309,233 @@ def random_ops(rng, pool, maxhosts=4):
     return ops
 
 
-# ---- loopback histories -------------------------------------------------------------------------
+# ---- histories over loopback connections (plain HTTP/1.x, TLS + HTTP/1.1, TLS + HTTP/2) ------------------
 PATHS = [b"/h/page", b"/h/page?q=1", b"/h/other", b"/f.txt", b"/g.txt"]
 CONN_HOSTS = [b"localhost", b"localhost:8080", b"127.0.0.1", b"127.0.0.1:80", b"[::1]", b"[::1]:443", b"unknown.test", b"LOCALHOST"]
+# Host values that are not URI authorities (before cdbcb3a: connection closed / path changed)
+BAD_AUTH = [b"", b"a b", b"[::1", b"localhost:80:80", b":80", b"\xe4.test", b"a\ttest", b"a.test/x", b"a.test?q", b"a.test#f", b"@", b"a.test:", b"::1"]
+H2_AUTH = [b"localhost", b"localhost:8443", b"127.0.0.1:8443", b"[::1]:8443", b"unknown.test", b"LOCALHOST"]
+SNIS = [b"unknown.test", b"localhost", b"www.unknown.test"]
+PLAIN, TLS1, H2 = 0, 1, 2
+F_GZIP, F_IMS_FUTURE, F_IMS_PAST = 1, 2, 4
 
 
-def conn_case(rng, kind, ops=None, n=None, reqs=None):
-    if reqs is not None:
-        xr = [xl(xlist([xb(h) for h in hh]), xb(path)) for hh, path in reqs]
-        return Case("hosts.conn", xl(x_ops(ops), xlist(xr)), "hosts.conn_spec", {"kind": kind}, "dev")
-    return _conn_case(rng, kind, ops, n)
+def x_whosts(hosts):
+    return xlist([xl(xbool(d), xb(n), xlist([xb(a) for a in alts]), xn(o)) for d, n, alts, o in hosts])
 
 
-def _conn_case(rng, kind, ops=None, n=None):
+def wreq(tr=PLAIN, sni=None, v10=False, method=b"GET", hh=(), auth=None, path=b"/h/page", flags=0):
+    return xl(xn(tr), xopt(None if sni is None else xb(sni)), xbool(v10), xb(method), xlist([xb(h) for h in hh]),
+              xopt(None if auth is None else xb(auth)), xb(path), xn(flags))
+
+
+def wire_case(kind, hosts, reqs):
+    hosts = [h if len(h) == 4 else (h[0], h[1], h[2], 0) for h in hosts]
+    return Case("hosts.wire", xl(x_whosts(hosts), xlist(reqs)), "hosts.wire_spec", {"kind": kind}, "dev")
+
+
+def random_wire_case(rng, kind, n=None):
     pool = NAMES + [b"d.test", b"localhost"]
-    if ops is None:
+    ops = random_ops(rng, pool)
+    while len(ops) < 2 or sum(1 for o in ops if o[0]) > 1:
         ops = random_ops(rng, pool)
-        while len(ops) < 2 or sum(1 for o in ops if o[0]) > 1:
-            ops = random_ops(rng, pool)
+    hosts = []
+    for i, (d, nm, alts) in enumerate(ops):
+        o = 0
+        if i > 0 and rng.random() < 0.25:
+            o |= 1          # Host::clone_without_extensions of the host before
+        if i > 0 and rng.random() < 0.2:
+            o |= 2          # shares Host::path with host 0
+        hosts.append((d, nm, alts, o))
     configured = sorted({x for _, nm, alts in ops for x in [nm] + list(alts)})
     n = n or rng.randint(6, 14)
     reqs = []
-    # identical paths on alternating hosts
-    p0 = rng.choice(PATHS[:3])
+    p0 = rng.choice(PATHS[:3])        # identical paths on alternating hosts
     for i in range(n):
-        r = rng.random()
-        if r < 0.62:
-            h = configured[i % len(configured)] if rng.random() < 0.7 else rng.choice(configured)
-            f = rng.random()
-            if f < 0.12:
-                h = h + b"."
-            elif f < 0.18:
-                h = h.upper()
-            elif f < 0.24:
-                h = h + b":8080"
-            hh = [h]
-        elif r < 0.9:
-            hh = [rng.choice(CONN_HOSTS)]
-        elif r < 0.95:
-            hh = []
-        else:
-            hh = [rng.choice(configured), rng.choice(configured)]
+        tr = rng.choice([PLAIN, PLAIN, TLS1, H2])
         path = p0 if rng.random() < 0.6 else rng.choice(PATHS)
-        reqs.append(xl(xlist([xb(h) for h in hh]), xb(path)))
-    return Case("hosts.conn", xl(x_ops(ops), xlist(reqs)), "hosts.conn_spec", {"kind": kind}, "dev")
+        handler = path.startswith(b"/h")
+        h = configured[i % len(configured)] if rng.random() < 0.7 else rng.choice(configured)
+        sni, auth, hh = None, None, []
+        if tr != PLAIN:
+            r = rng.random()
+            sni = None if r < 0.22 else rng.choice(SNIS) if r < 0.4 else rng.choice(configured)
+        if tr == H2:
+            r = rng.random()
+            auth = (h if r < 0.5 else h + b":8443" if r < 0.6 else h + b"." if r < 0.68 else h.upper() if r < 0.74 else rng.choice(H2_AUTH))
+            if rng.random() < 0.15:
+                hh = [rng.choice(configured + [b"unknown.test", b"\xe4.test"])]
+        else:
+            r = rng.random()
+            if r < 0.55:
+                f = rng.random()
+                hh = [h + b"." if f < 0.12 else h.upper() if f < 0.18 else h + b":8080" if f < 0.24 else h]
+            elif r < 0.75:
+                hh = [rng.choice(CONN_HOSTS)]
+            elif r < 0.87:
+                hh = [rng.choice(BAD_AUTH)]
+            elif r < 0.94:
+                hh = []
+            else:
+                hh = [rng.choice(configured), rng.choice(configured)]
+        method, flags = b"GET", 0
+        if rng.random() < 0.33:
+            flags |= F_GZIP
+        if handler:
+            method = rng.choice([b"GET"] * 7 + [b"HEAD", b"POST", b"PUT"])
+            r = rng.random()
+            flags |= F_IMS_FUTURE if r < 0.12 else F_IMS_PAST if r < 0.2 else 0
+        v10 = tr != H2 and rng.random() < 0.08
+        reqs.append(wreq(tr, sni, v10, method, hh, auth, path, flags))
+    return wire_case(kind, hosts, reqs)
+
+
+def wire2_case(rng, kind):
+    """concurrent clients, each with its own host (identical paths): every schedule gives every client what it would get alone"""
+    k = rng.randint(2, 4)
+    names = [b"a.test", b"b.test", b"c.test", b"d.test"][:k]
+    hosts = [(False, n, [b"www." + n] if rng.random() < 0.5 else [], 1 if i > 0 and rng.random() < 0.25 else 0) for i, n in enumerate(names)]
+    p0 = rng.choice(PATHS[:3])
+    clients = []
+    for i in range(rng.randint(2, k)):
+        mine = [names[i]] + list(hosts[i][2])
+        reqs = []
+        for _ in range(rng.randint(5, 10)):
+            tr = rng.choice([PLAIN, PLAIN, TLS1, H2])
+            h = rng.choice(mine)
+            path = p0 if rng.random() < 0.7 else rng.choice(PATHS)
+            method = rng.choice([b"GET"] * 6 + [b"HEAD", b"POST"]) if path.startswith(b"/h") else b"GET"
+            flags = (F_GZIP if rng.random() < 0.3 else 0) | (F_IMS_FUTURE if path.startswith(b"/h") and rng.random() < 0.1 else 0)
+            if rng.random() < 0.1:
+                h = b"nobody.test"                          # 409: no host is touched
+                tr = PLAIN
+            if tr == PLAIN:
+                reqs.append(wreq(PLAIN, None, False, method, [h if rng.random() < 0.85 else h + b"."], None, path, flags))
+            elif tr == TLS1:
+                reqs.append(wreq(TLS1, rng.choice(mine), False, method, [rng.choice(names)], None, path, flags))   # the SNI decides
+            else:
+                reqs.append(wreq(H2, rng.choice(mine), False, method, [], rng.choice(names), path, flags))
+        clients.append(xlist(reqs))
+    return Case("hosts.wire2", xl(x_whosts(hosts), xlist(clients)), "hosts.wire2_spec", {"kind": kind}, "dev")
+
+
+def wire_corpus():
+    ab = [(False, b"a.test", [b"www.a.test"]), (False, b"b.test", [])]
+    abd = [(False, b"a.test", [b"www.a.test"]), (True, b"b.test", [])]
+    P = b"/h/page"
+    out = []
+    out.append(wire_case("history-corpus", ab, [wreq(hh=[h]) for h in [b"a.test", b"b.test"] * 4]))
+    out.append(wire_case("history-corpus", ab, [wreq(hh=[h], path=b"/f.txt") for h in [b"a.test", b"b.test", b"www.a.test", b"b.test."] * 2]))
+    out.append(wire_case("history-corpus", ab, [wreq(hh=[b"a.test"]), wreq(hh=[]), wreq(hh=[b"b.test"]), wreq(hh=[b"nobody.test"]),
+                                                wreq(hh=[b"[::1]:8080"]), wreq(hh=[b"a.test:8080"]), wreq(hh=[b"a.test"])]))
+    out.append(wire_case("history-corpus", [(False, b"a.test", [b"x.test"]), (True, b"b.test", [b"a.test"])],
+                         [wreq(hh=[h]) for h in [b"x.test", b"b.test", b"a.test", b"zzz", b"x.test", b"b.test"]] + [wreq(hh=[])]))
+    # the three defects repaired in this round (Properties/C15.v *_refuted) and the known class
+    for hosts in (ab, abd):
+        out.append(wire_case("history-corpus", hosts, [wreq(hh=[]), wreq(hh=[], v10=True), wreq(tr=TLS1, sni=b"a.test", hh=[]), wreq(hh=[b"a.test"])]))
+        out.append(wire_case("history-corpus", hosts, [wreq(hh=[h]) for h in BAD_AUTH] + [wreq(hh=[b"a.test"])]))
+        out.append(wire_case("history-corpus", hosts, [wreq(tr=H2, sni=None, auth=b"a.test"), wreq(tr=H2, sni=None, auth=b"b.test"),
+                                                       wreq(tr=H2, sni=None, auth=b"localhost:8443"), wreq(tr=H2, sni=None, auth=b"a.test", hh=[b"b.test"])]))
+        out.append(wire_case("history-corpus", hosts, [wreq(tr=TLS1, sni=b"nobody.test", hh=[b"a.test"]), wreq(tr=TLS1, sni=None, hh=[b"localhost"]),
+                                                       wreq(tr=H2, sni=b"nobody.test", auth=b"a.test"), wreq(tr=TLS1, sni=b"a.test", hh=[b"a.test"])]))
+        # the SNI wins over Host header and :authority
+        out.append(wire_case("history-corpus", hosts, [wreq(tr=TLS1, sni=b"a.test", hh=[b"b.test"]), wreq(tr=TLS1, sni=b"b.test", hh=[b"a.test"]),
+                                                       wreq(tr=H2, sni=b"a.test", auth=b"b.test"), wreq(tr=H2, sni=b"b.test", auth=b"a.test"),
+                                                       wreq(tr=TLS1, sni=b"localhost", hh=[b"b.test"]), wreq(hh=[b"a.test"]), wreq(hh=[b"b.test"])]))
+    # methods and conditional requests on identical paths of two hosts; a clone and a host sharing the path of host 0
+    cl = [(False, b"a.test", [], 0), (False, b"b.test", [], 1), (False, b"c.test", [], 2), (False, b"d.test", [], 3)]
+    out.append(wire_case("history-corpus", cl, [wreq(hh=[h], path=p, flags=F_GZIP) for p in (P, b"/f.txt") for h in [b"a.test", b"b.test", b"c.test", b"d.test"] * 2]))
+    out.append(wire_case("history-corpus", cl, [wreq(hh=[b"a.test"], method=b"HEAD"), wreq(hh=[b"b.test"], method=b"POST"), wreq(hh=[b"a.test"]),
+                                                wreq(hh=[b"b.test"]), wreq(hh=[b"a.test"], flags=F_IMS_FUTURE), wreq(hh=[b"b.test"], flags=F_IMS_PAST),
+                                                wreq(hh=[b"c.test"], flags=F_IMS_FUTURE), wreq(hh=[b"c.test"], flags=F_IMS_FUTURE), wreq(hh=[b"a.test"], method=b"POST"),
+                                                wreq(hh=[b"a.test"], method=b"PUT"), wreq(hh=[b"a.test"])]))
+    return out
+
+
+# ---- the multi-host collection over the fixture pipeline (hosts.pipe) -----------------------------------
+PPATHS = [b"/p", b"/q", b"/v", b"/nohandler"]
+PQUERIES = [None, None, b"x=1", b"x=2"]
+PREPORT = [b"vary", b"x-h"]
+
+
+def pipe_cfg(rng, idx, same):
+    """the pipeline of one host; `same`: every host gets the same handlers (identical paths, identical bodies)"""
+    tag = b"" if same else b"%d" % idx
+    hs = [pipe.H(b"/p", kind=2, body=b"n" + tag + b"=", spref=rng.choice([2, 2, 1, 0]), cpref=rng.choice([0, 3]), headers=[(b"x-h", b"p" + tag)]),
+          pipe.H(b"/q", kind=rng.choice([1, 2, 4]), body=b"q" + tag + b":", spref=rng.choice([1, 2, 2]), cpref=0, headers=[(b"x-h", b"q" + tag)])]
+    kw = dict(cache=rng.random() < 0.85, default_ext=rng.random() < 0.25, disable_ims=rng.random() < 0.1, handlers=hs,
+              report=[xb(r) for r in PREPORT])
+    if rng.random() < 0.5:
+        tup = [(b"x-v", rng.choice([0, 1]), b"dv")]
+        hs.append(pipe.H(b"/v", kind=3, body=b"V" + tag, spref=2, tuple_=tup, cpref=0))
+        kw["vary"] = [pipe.vary_rule(b"/v", tup)]
+    return pipe.cfg(**kw)
+
+
+def pipe_event(rng, configured, p0):
+    r = rng.random()
+    names = configured + [b"unknown.test", b"localhost", b"default", b"", b"a.test."]
+    if r < 0.74:
+        path = p0 if rng.random() < 0.55 else rng.choice(PPATHS)
+        q = rng.choice(PQUERIES)
+        t = path + (b"?" + q if q is not None else b"")
+        f = rng.random()
+        h = rng.choice(configured)
+        hh = [h] if f < 0.7 else [h + b"."] if f < 0.76 else [rng.choice([b"unknown.test", b"localhost", b"127.0.0.1:80", b"[::1]"])] if f < 0.9 \
+            else [] if f < 0.94 else [rng.choice(configured), rng.choice(configured)]
+        sni = None if rng.random() < 0.85 else rng.choice(configured + [b"unknown.test"])
+        hdrs = []
+        if rng.random() < 0.3:
+            hdrs.append((b"accept-encoding", rng.choice([b"gzip", b"br", b"identity"])))
+        if rng.random() < 0.15:
+            hdrs.append((b"if-modified-since", rng.choice([b"@T+60", b"@T+60", b"@T-60"])))
+        if path == b"/v" and rng.random() < 0.8:
+            hdrs.append((b"x-v", rng.choice([b"a", b"B", b"zz"])))
+        method = rng.choice([b"GET"] * 6 + [b"HEAD", b"POST"])
+        return xl(xn(0), xopt(None if sni is None else xb(sni)), xlist([xb(x) for x in hh]), xn(rng.randrange(1, 4)), xb(method), xb(t),
+                  xlist([xl(xb(k), xb(v)) for k, v in hdrs]), xb(b""))
+    if r < 0.88:
+        q = rng.choice(PQUERIES)
+        return xl(xn(1), xb(rng.choice(names)), xb(rng.choice(PPATHS[:3]) + (b"?" + q if q is not None else b"")))
+    return xl(xn(2), xopt(None if rng.random() < 0.3 else xb(rng.choice(names))))
+
+
+def pipe_case(rng, kind, n=None):
+    pool = NAMES + [b"d.test", b"localhost"]
+    ops = random_ops(rng, pool)
+    while len(ops) < 2 or sum(1 for o in ops if o[0]) > 1:
+        ops = random_ops(rng, pool)
+    configured = sorted({x for _, nm, alts in ops for x in [nm] + list(alts)})
+    same = rng.random() < 0.6
+    cfgs = [pipe_cfg(rng, i, same) for i in range(len(ops))]
+    p0 = rng.choice(PPATHS[:3])
+    events = [pipe_event(rng, configured, p0) for _ in range(n or rng.randint(10, 18))]
+    return Case("hosts.pipe", xl(x_ops(ops), xlist(cfgs), xlist(events)), "hosts.pipe_spec", {"kind": kind}, "dev")
+
+
+def pipe_corpus():
+    ab = [(False, b"a.test", [b"www.a.test"]), (False, b"b.test", [])]
+    abd = [(False, b"a.test", [b"www.a.test"]), (True, b"b.test", [b"c.test"])]
+    cfg = pipe.cfg(cache=True, handlers=[pipe.H(b"/p", kind=2, body=b"n=", spref=2)], report=[xb(r) for r in PREPORT])
+
+    def get(h, t=b"/p", sni=None, method=b"GET", hdrs=()):
+        return xl(xn(0), xopt(None if sni is None else xb(sni)), xlist([xb(x) for x in h]), xn(1), xb(method), xb(t),
+                  xlist([xl(xb(k), xb(v)) for k, v in hdrs]), xb(b""))
+
+    def clear(name, t=b"/p"):
+        return xl(xn(1), xb(name), xb(t))
+
+    def clear_all(f):
+        return xl(xn(2), xopt(None if f is None else xb(f)))
+    out = []
+    for ops in (ab, abd):
+        ev = [get([b"a.test"]), get([b"b.test"]), get([b"www.a.test"]), clear_all(b"a.test"), get([b"a.test"]), get([b"b.test"]),
+              clear(b"b.test"), get([b"b.test"]), get([b"a.test"]), clear(b"default"), clear(b""), get([b"b.test"]), clear(b"www.a.test"),
+              get([b"a.test"]), clear_all(b"www.a.test"), get([b"a.test"]), clear_all(b"unknown.test"), get([b"b.test"]), clear(b"a.test."),
+              get([b"a.test"]), clear_all(None), get([b"a.test"]), get([b"b.test"]), get([b"a.test"], sni=b"b.test"),
+              get([b"b.test"], hdrs=[(b"if-modified-since", b"@T+60")]), get([b"a.test"], method=b"POST"), get([b"b.test"], method=b"HEAD")]
+        out.append(Case("hosts.pipe", xl(x_ops(ops), xlist([cfg, cfg]), xlist(ev)), "hosts.pipe_spec", {"kind": "pipe-corpus"}, "dev"))
+    return out
 
 
 def generate(rng, tier):
@@ -265,7 +562,7 @@ def generate(rng, tier):
         for _ in range(6000):
             hosts = [rng.choice(menu) for _ in range(4)]
             cases.append(lookup_case(rng.choice(with_defaults(hosts)), rng, "sampled-4"))
-        nrand, nconn = 6000, 400
+        nrand, nconn, npipe = 6000, 600, 1500
     else:
         for hosts in itertools.product(menu, repeat=1):
             for ops in with_defaults(hosts):
@@ -274,21 +571,20 @@ def generate(rng, tier):
             k = rng.choice([2, 2, 3, 3, 4])
             hosts = [rng.choice(menu) for _ in range(k)]
             cases.append(lookup_case(rng.choice(with_defaults(hosts)), rng, "sampled-%d" % k))
-        nrand, nconn = 500, 60
+        nrand, nconn, npipe = 500, 70, 150
     pool = NAMES + EXTRA_NAMES
     for _ in range(nrand):
         cases.append(lookup_case(random_ops(rng, pool), rng, "random"))
     # ---- (b) histories over loopback connections
-    ab = [(False, b"a.test", [b"www.a.test"]), (False, b"b.test", [])]
-    cases.append(conn_case(rng, "history-corpus", ops=ab, reqs=[([h], b"/h/page") for h in [b"a.test", b"b.test"] * 4]))
-    cases.append(conn_case(rng, "history-corpus", ops=ab, reqs=[([h], b"/f.txt") for h in [b"a.test", b"b.test", b"www.a.test", b"b.test."] * 2]))
-    cases.append(conn_case(rng, "history-corpus", ops=ab, reqs=[([b"a.test"], b"/h/page"), ([], b"/h/page"), ([b"b.test"], b"/h/page"),
-                                                               ([b"nobody.test"], b"/h/page"), ([b"[::1]:8080"], b"/h/page"),
-                                                               ([b"a.test:8080"], b"/h/page"), ([b"a.test"], b"/h/page")]))
-    cases.append(conn_case(rng, "history-corpus", ops=[(False, b"a.test", [b"x.test"]), (True, b"b.test", [b"a.test"])],
-                           reqs=[([h], b"/h/page") for h in [b"x.test", b"b.test", b"a.test", b"zzz", b"x.test", b"b.test"]] + [([], b"/h/page")]))
+    cases += wire_corpus()
     for _ in range(nconn):
-        cases.append(conn_case(rng, "history"))
+        cases.append(random_wire_case(rng, "history"))
+    for _ in range(nconn // 3):
+        cases.append(wire2_case(rng, "concurrent-clients"))
+    # ---- (c) multi-host collections over the fixture pipeline: requests, clear_page, clear_response_caches
+    cases += pipe_corpus()
+    for _ in range(npipe):
+        cases.append(pipe_case(rng, "pipe"))
     return cases
 
 
@@ -299,22 +595,34 @@ def _entries(text):
     return x[1][1][1]
 
 
-CLOSED = ("L", [("N", 0), ("L", [("N", 0)])])
+NOTLS = ("L", [("N", 0), ("L", [("N", 1)])])
 R409 = ("L", [("N", 0), ("L", [("N", 409)])])
 
 
 def spec_ok(c, i, s):
-    if c.comp == "hosts.conn":
-        if i == s:
-            return True
-        ie, se = _entries(i), _entries(s)
-        reqs = c.x[1][1][1]
-        has_default = any(o[1][0] == ("N", 1) for o in c.x[1][0][1])
-        if ie is not None and se is not None and len(ie) == len(se) == len(reqs):
-            diff = [k for k in range(len(ie)) if ie[k] != se[k]]
-            if diff and not has_default and all(ie[k] == CLOSED and se[k] == R409 and reqs[k][1][0][1] == [] for k in diff):
-                c.meta["class"] = "absent-host-closed"
-        return False
+    if c.comp in ("hosts.pipe", "hosts.wire2"):
+        return i == s
+    if c.comp == "hosts.wire":
+        xi, xs = xparse(i), xparse(s)
+        if xi[0] != "L" or xs[0] != "L" or len(xs[1]) != 3 or len(xi[1]) != 2:
+            return i == s            # build outcome: (L (N 2)) on both sides
+        ie, se, refused = xi[1][1][1], xs[1][1][1], xs[1][2][1]
+        if len(ie) != len(se):
+            return False
+        # known class tls-handshake-refused: the handshake is refused where the specification answers 409 or routes by the Host
+        # header.  Where the specification would have served the request its state moves on and the implementation's does not:
+        # the rest of such a history is compared with the model only.
+        for k in range(len(ie)):
+            if ie[k] == se[k]:
+                continue
+            if refused[k] == ("N", 1) and ie[k] == NOTLS:
+                c.meta["class"] = "tls-handshake-refused"
+                if se[k] != R409:
+                    break
+                continue
+            c.meta.pop("class", None)
+            return False
+        return "class" not in c.meta
     ie, se = _entries(i), _entries(s)
     if ie is None or se is None:
         return i == s            # build outcome: (L (N 2)) on both sides
@@ -324,11 +632,14 @@ def spec_ok(c, i, s):
         if b == ("L", []):
             continue             # no specified answer for this query kind
         kind, want = b[1][0][1], b[1][1]
-        if kind == 0:
-            got = a[1][1] if a[1][0] == ("N", 0) and len(a[1]) == 2 else None
+        if kind in (0, 1, 2, 3, 4, 7):
+            # Ok (option (id, name)): the id
+            got = a[1][1] if a[0] == "L" and len(a[1]) == 2 and a[1][0] == ("N", 0) else None
             if got is None:
                 return False
             got = ("L", [got[1][0][1][0]]) if got[1] else ("L", [])
+        elif kind == 5:
+            got = a
         else:
             if not (a[1][0] == ("N", 0) and len(a[1]) == 2):
                 return False
@@ -356,6 +667,27 @@ def directed(rng, mismatches):
     return cases
 
 
-LEVEL_TEXT = ""
-LEVEL_NOTE = ""
-TECHNIQUE = "Coq proof (model = reference resolver for all configurations and names; product frame theorem) + differential correspondence model vs. implementation"
+LEVEL_TEXT = ("Coq theorems, no axioms. ROUTING: for every sequence of builder calls, SNI and Host values, get_from_request on the model of the "
+              "collection equals the reference resolver (routing_eq_reference without overlap, routing_overlapping in general; trailing dot, default, "
+              "loopback, 409), the choice in handle_connection never fails (connection_choice), and the administrative lookups hit the hosts the "
+              "configuration names (clear_page_target_eq, clear_all_targets_eq). CONNECTIONS: for every history over any mix of plain HTTP/1.x, "
+              "TLS + HTTP/1.1 and TLS + HTTP/2 connections with any SNI / Host lines / :authority / methods / conditional requests, the model of "
+              "today's handle_connection + TLS certificate resolver + read::request + get_from_request answers exactly as the specification server "
+              "— the product of the per-host handlers and caches routed by the reference resolver from the SNI if present, else from the Host header "
+              "(wire_histories_eq_spec, _http: with the transcribed authority parser, no hypothesis left; sni_decides; tls_never_409) — except for "
+              "TLS connections refused during the handshake (known class tls-handshake-refused, witness tls_handshake_refuted). ISOLATION: "
+              "host_frame / host_frame_history / host_history_independence for the abstract product; instantiated (a) with the wire model "
+              "(wire_isolation; wire_concurrent_clients: every interleaving of one client's requests with any other requests that are routed to "
+              "other hosts gives the client the replies it would get alone) and (b) with the C03/C04 model of kvarn::handle_cache under every host "
+              "plus clear_page / clear_response_caches / waits as events (multi_host_pipeline_eq_projection: state and replies of host i are those of "
+              "its own pipeline on the sub-history the specification assigns to it; multi_host_pipeline_eq_spec; host_alone_is_cache_pipeline: that "
+              "pipeline is CacheX.runX_state of C03/C04). Five defects of the code are proved as witnesses on the faithful old model and replayed "
+              "by the corpus: alias_chain_refuted, ipv6_loopback_refuted (repaired earlier), absent_host_refuted, bad_authority_refuted, "
+              "h2_authority_refuted (repaired in this round: 2fb2d8c, cdbcb3a, fff35ad). Tied to the repo worktree by the differential run of "
+              "the real Collection calls, of kvarn::handle_connection over loopback TCP / TLS / HTTP/2 connections, and of multi-host collections "
+              "over kvarn::handle_cache, against the extracted models and the specification servers.")
+LEVEL_NOTE = ("Trusted: Coq kernel; extraction (sample re-checked in-kernel); hand transcription of host.rs / handle_connection / read::request "
+              "into Model/Hosts.v validated by the differential run; the reading of 'equals' as byte equality (A.TEST and a.test:8080 are unknown "
+              "names, as in the code); rustls / h2 as clients. Not covered: HTTP/3; SNI spellings a rustls client cannot send other than through "
+              "the direct calls; hosts without certificate on a TLS port; the shared pre-host limiter; races inside one host (C05).")
+TECHNIQUE = "Coq proof (model = reference resolver for all configurations and names; product frame theorem instantiated with the connection model and with the C03/C04 pipeline model) + differential correspondence on Collection calls, on handle_connection over TCP/TLS/HTTP2 loopback connections and on multi-host handle_cache histories"
